@@ -96,8 +96,21 @@ pub fn execute(case: &GraphCase, pr: &Prepared) -> GraphRun {
     }
 }
 
+/// path of a task relative to the root, with `.` and `..` resolved lexically: two tasks for the
+/// same file reached through different spellings get the same label
 fn task_label(root: &str, path: &str) -> String {
-    path.strip_prefix(root).map(|p| p.trim_start_matches('/').to_string()).unwrap_or_else(|| path.to_string())
+    let rel = path.strip_prefix(root).map(|p| p.trim_start_matches('/').to_string()).unwrap_or_else(|| path.to_string());
+    let mut parts: Vec<&str> = vec![];
+    for c in rel.split('/') {
+        match c {
+            "" | "." => {}
+            ".." => {
+                parts.pop();
+            }
+            x => parts.push(x),
+        }
+    }
+    parts.join("/")
 }
 
 /// the oracles; `which` selects the assertions that belong to the property
@@ -279,7 +292,13 @@ fn judge_inner(case: &GraphCase, pr: &Prepared, run: &GraphRun, which: Which) ->
                 );
             }
         }
-        // the final pass of A begins only after the final pass of each dependency has ended
+        // the final pass of A begins only after the final pass of each dependency has ended.
+        // Only meaningful under the controller: in free-running mode a task's `end` event is
+        // recorded after its `send`, so the coordinator may legitimately start the depender
+        // before the dependency's guard has reported `end` (seen once in a thorough run).
+        if matches!(case.sched, Sched::Free) {
+            return Ok(());
+        }
         let final_pass = |src: &String| -> Option<u64> {
             spawns
                 .get(&(src.clone(), Pass::Second))
@@ -348,6 +367,7 @@ pub fn dfs(
         let mut case = base.clone();
         case.sched = Sched::Prefix(prefix.clone());
         let run = execute(&case, &pr);
+        crate::wctx::beat();
         runs += 1;
         st.evaluations += 1;
         if nontrivial(&case, &pr, &run, which) {
